@@ -356,13 +356,17 @@ func (w *wrapperCtx) allocatedInClosure(vec ssa.Value) bool {
 		vec = os[0]
 	}
 	b := vecBase(vec)
+	// created in the goroutine's own body, or — per call — in a helper closure the current view chain runs through
+	private := func(fn *ssa.Function) bool {
+		return fn == w.cl || w.frames[fn] != nil
+	}
 	switch x := b.(type) {
 	case *ssa.Alloc:
-		return x.Parent() == w.cl
+		return private(x.Parent())
 	case *ssa.Call:
-		return x.Parent() == w.cl && callName(x.Common()) == "NewIndex"
+		return private(x.Parent()) && callName(x.Common()) == "NewIndex"
 	case *ssa.MakeSlice:
-		return x.Parent() == w.cl
+		return private(x.Parent())
 	}
 	return false
 }
